@@ -90,5 +90,29 @@ func (s *Struct) validate() error {
 			return fmt.Errorf("%v: %w", s.Def.Name, err)
 		}
 	}
+
+	// A struct is a value type, it cannot contain itself, directly or through other structs
+	if s.contains(s, make(map[*Struct]struct{})) {
+		return fmt.Errorf("%v: struct contains itself", s.Def.Name)
+	}
 	return nil
+}
+
+// contains returns true if the struct contains the target struct in its fields, recursively.
+func (s *Struct) contains(target *Struct, visited map[*Struct]struct{}) bool {
+	if _, ok := visited[s]; ok {
+		return false
+	}
+	visited[s] = struct{}{}
+
+	for _, field := range s.Fields.Values() {
+		ref := field.Type.Ref
+		if ref == nil || ref.Struct == nil {
+			continue
+		}
+		if ref.Struct == target || ref.Struct.contains(target, visited) {
+			return true
+		}
+	}
+	return false
 }
